@@ -168,10 +168,12 @@ def _marker(n):
     return L.AtomicProposition('zz_marker')
 
 
-def impl_clone(Ln, f):
-    """-> observation dict of o.clone()"""
+def impl_clone(Ln, f, raw=False):
+    """-> observation dict of o.clone(); raw: the formula is built from raw python str / bool operands and the & | ~
+    operators (same tree, another construction route: e.g. the `height` attribute of such nodes differs)"""
     L = lang_module(Ln)
-    o = build(f, L)
+    mk = build_raw if raw else build
+    o = mk(f, L)
     s0 = str(o)
     r = call(lambda: o.clone())
     if r[0] == 'err':
@@ -209,7 +211,7 @@ def impl_clone(Ln, f):
                     return dict(obs, mutation_through_clone_reaches_original=leaked)
     obs['mutation_through_clone_reaches_original'] = leaked
     # and the other way round on a fresh pair
-    o2 = build(f, L)
+    o2 = mk(f, L)
     c2 = o2.clone()
     back = []
     n2 = nodes_of(o2)
@@ -413,7 +415,8 @@ def check_triples(R, J, L, triples):
 def check_clones(R, J, items):
     for (L, f) in sorted(items, key=lambda it: fsize(it[1])):
         R.evaluations += 1
-        obs = impl_clone(L, f)
+        raw = (R.evaluations % 2 == 0) and f[0] not in ('true', 'false', 'ap')
+        obs = impl_clone(L, f, raw=raw)
         exp = clone_expected(L, f)
         if obs != exp:
             diff = [k for k in exp if obs.get(k) != exp[k]]
@@ -422,7 +425,7 @@ def check_clones(R, J, items):
                                             'edited_formula_incoherent'))
             J.bad(('a formula edited after being hashed is ==, but does not hash/collide like, a fresh formula with the same tree'
                    if diff == ['edited_formula_incoherent'] else 'clone() is not an equal, independent copy: %s' % ','.join(diff)),
-                  {'kind': 'clone', 'lang': L, 'tree': f, 'tree_str': fstr(f), 'impl': obs, 'expected': exp, 'differs': diff},
+                  {'kind': 'clone', 'lang': L, 'tree': f, 'tree_str': fstr(f), 'built_from_raw_operands': raw, 'impl': obs, 'expected': exp, 'differs': diff},
                   no_input=not real)
         else:
             R.count('clones')
@@ -639,7 +642,7 @@ def replay(R, data):
             R.violation('replayed', d)
     elif kind == 'clone':
         f = detuple(d['tree'])
-        obs = impl_clone(L, f)
+        obs = impl_clone(L, f, raw=bool(d.get('built_from_raw_operands')))
         exp = clone_expected(L, f)
         print('impl    :', obs)
         print('expected:', exp)
